@@ -109,7 +109,7 @@ def gen_c08(tier, seed):
             kinds = kinds[:-1] + ("nodl",)
         at = r.choice(ACT_TIMES)
         act = (at, r.choice("WX"), r.randrange(8)) if at else None
-        c = build_c08_case("c08-%d" % idx, kinds, r.choice(TIMEOUTS), act, r, 1)
+        c = build_c08_case("c08-%d" % idx, kinds, r.choice(TIMEOUTS + [2147483647] if idx % 7 == 0 else TIMEOUTS), act, r, 1)
         if r.random() < 0.2:
             c = Case(c.id, c.script.replace(" ; PL ", " ; FR poll 0 %d ; PL " % (40000 + r.choice([1, 5, 15, 35])), 1), c.meta, c.sig + "/intr")
         cases.append(c)
@@ -158,7 +158,7 @@ def gen_c08(tier, seed):
                     idx += 1
     # reproc_wait timing: timeout x deadline x child exit time, exhaustive small grid
     for dl in (0, 10, 50, 90, 2147483647, 1):
-        for to in (0, 20, 60, 200, INFINITE, DEADLINE):
+        for to in (0, 20, 60, 200, INFINITE, DEADLINE, 2147483647):
             for ex in (None, 5, 25, 45, 85, 125, 215):
                 for pre in (0, 20, -5, -15):
                     # pre < 0: no pause, but a signal interrupts the first wait -pre ms into it
